@@ -4,6 +4,9 @@
                   CELL <kind> <path> <script|-> spec=<v> mech=<v> twin=<script|-> twin_spec=<v> twin_mech=<v>
      sites    - one line per check site:
                   SITE <name> chk=<0|1> eff=<0|1> <script> spec=<v> mech=<v> allbut=<v> breaks_allbut=<0|1> breaks_mech=<0|1>
+     chains <ref depth> <alias depth> <ptr depth>
+              - one line per derivation chain (object -> handle -> handle ... -> store):
+                  CHAIN <family> <name> <script> spec=<v> mech=<v> expect=<v>
      run      - stdin: one script per line; for each script three lines
                   SPEC <outcome> <snap> ...   MECH <outcome> <snap> ...   FREE <outcome> <snap> ...
                 (FREE = no test at all: gives the pointer structure of every prefix), then INV <0|1> <start snap>;
@@ -13,6 +16,7 @@
      ptr  := <tgt>,<pc>,<cc>             tgt := n | o<i> | s<i>.<k>
      op   := D <a|c|i> <o> <k> <u> | W <o> <v> ... | N <pc> <cc> <src|-> | P <p> <src> | T <d|i|e|m|a> <p> <m> <u>
            | R <param> <rc> <o> <k> <u> | C <src> <u> | M <a|c|i> <p> <d>
+           | H <param> <rc> <o<i>|h<j>> | S <a|c|i> <h> <m> <u> | X <h> <v> ... | Q <pc> <src> | E <h>
      src  := &o<i> | &s<i>.<k> | =<q>
    outcome := done | rej:<i>:<site> | stuck:<i>
    snap    := <vals of obj 0 ,-separated>/<obj 1>/...#<tgt of ptr 0>,<ptr 1>,...      (one per accepted op) *)
@@ -41,6 +45,12 @@ let site_s = function
   | SPtrCopyAssign -> "PtrCopyAssign" | SPtrCopyDecl -> "PtrCopyDecl" | SPtrCopyArg -> "PtrCopyArg"
   | SRefParam -> "RefParam" | SRefLocal -> "RefLocal" | SConstRefStore -> "ConstRefStore"
   | SReseatAssign -> "ReseatAssign" | SReseatCompound -> "ReseatCompound" | SReseatIncDec -> "ReseatIncDec"
+  | SRefLocalViaLocal -> "RefLocalViaLocal" | SRefLocalViaParam -> "RefLocalViaParam" | SRefLocalCRef -> "RefLocalCRef"
+  | SRefParamViaLocal -> "RefParamViaLocal" | SRefParamViaParam -> "RefParamViaParam" | SRefMemberConst -> "RefMemberConst"
+  | SRefStructRead -> "RefStructRead" | SRefStructFresh -> "RefStructFresh"
+  | SPtcParamStore -> "PtcParamStore" | SPtrCopyArgParam -> "PtrCopyArgParam" | SAliasOwnConst -> "AliasOwnConst"
+  | SAliasParentStore -> "AliasParentStore" | SAliasParentIncDec -> "AliasParentIncDec" | SAliasParentWhole -> "AliasParentWhole"
+  | SAliasDeep -> "AliasDeep"
 
 (* ---------- parsing ---------- *)
 let tgt_of s =
@@ -57,6 +67,9 @@ let pform_of = function "d" -> PDeref | "i" -> PDerefInc | "e" -> PDerefExpr | "
                       | s -> failwith ("pform " ^ s)
 let n s = nat_of_int (int_of_string s)
 let zz s = z_of_int (int_of_string s)
+let hsrc_of s =
+  let k = nat_of_int (int_of_string (String.sub s 1 (String.length s - 1))) in
+  if s.[0] = 'o' then HObj k else if s.[0] = 'h' then HVia k else failwith ("hsrc " ^ s)
 let obj_of s =
   match split ',' s with
   | [sh; c; mc; vs] ->
@@ -67,7 +80,7 @@ let obj_of s =
   | _ -> failwith ("obj " ^ s)
 let ptr_of s =
   match split ',' s with
-  | [t; pc; cc] -> { ptgt = tgt_of t; ppc = b01 pc; pcc = b01 cc }
+  | [t; pc; cc] -> mk_ptr (tgt_of t) (b01 pc) (b01 cc) false false
   | _ -> failwith ("ptr " ^ s)
 let op_of s =
   match words s with
@@ -80,13 +93,18 @@ let op_of s =
   | ["R"; pa; rc; o; k; u] -> ORef (b01 pa, b01 rc, n o, n k, zz u)
   | ["C"; src; u] -> OPtrCall (src_of src, zz u)
   | ["M"; f; p; d] -> OPtrMove (dform_of f, n p, zz d)
+  | ["H"; pa; rc; src] -> OHRef (b01 pa, b01 rc, hsrc_of src)
+  | ["S"; f; h; m; u] -> OHStore (dform_of f, n h, n m, zz u)
+  | "X" :: h :: vs -> OHWhole (n h, List.map zz vs)
+  | ["Q"; pc; src] -> OPtrParam (b01 pc, src_of src)
+  | ["E"; h] -> OHRead (n h)
   | _ -> failwith ("op " ^ s)
 let items s = List.filter (fun x -> String.trim x <> "") (split ';' s)
 let script_of line =
   match split '|' line with
   | [os; ps; ops] ->
       ({ objs = List.map (fun x -> obj_of (String.trim x)) (items os);
-         ptrs = List.map (fun x -> ptr_of (String.trim x)) (items ps) },
+         ptrs = List.map (fun x -> ptr_of (String.trim x)) (items ps); gbad = false },
        List.map (fun x -> op_of (String.trim x)) (items ops))
   | _ -> failwith "script"
 
@@ -114,6 +132,12 @@ let op_s = function
   | ORef (pa, rc, o, k, u) -> Printf.sprintf "R %s %s %s %s %s" (s01 pa) (s01 rc) (ni o) (ni k) (zi u)
   | OPtrCall (s, u) -> Printf.sprintf "C %s %s" (src_s s) (zi u)
   | OPtrMove (f, p, d) -> Printf.sprintf "M %s %s %s" (dform_s f) (ni p) (zi d)
+  | OHRef (pa, rc, HObj o) -> Printf.sprintf "H %s %s o%s" (s01 pa) (s01 rc) (ni o)
+  | OHRef (pa, rc, HVia h) -> Printf.sprintf "H %s %s h%s" (s01 pa) (s01 rc) (ni h)
+  | OHStore (f, h, m, u) -> Printf.sprintf "S %s %s %s %s" (dform_s f) (ni h) (ni m) (zi u)
+  | OHWhole (h, vs) -> "X " ^ ni h ^ " " ^ String.concat " " (List.map zi vs)
+  | OPtrParam (pc, s) -> Printf.sprintf "Q %s %s" (s01 pc) (src_s s)
+  | OHRead h -> "E " ^ ni h
 let script_s (s, ops) =
   String.concat ";" (List.map obj_s s.objs) ^ "|" ^ String.concat ";" (List.map ptr_s s.ptrs) ^ "|" ^
   String.concat ";" (List.map op_s ops)
@@ -147,6 +171,29 @@ let () =
         let c1 = scenario true k p and c0 = scenario false k p in
         Printf.printf "CELL\t%s\t%s\t%s\tspec=%s\tmech=%s\t%s\ttwin_spec=%s\ttwin_mech=%s\n" (kind_s k) (path_s p)
           (sc c1) (v spec c1) (v mech c1) (sc c0) (v spec c0) (v mech c0)) all_paths) all_kinds
+  | "chains" ->
+      let depth i = nat_of_int (int_of_string Sys.argv.(i)) in
+      let bs b = if b then "c" else "n" in
+      let line fam name c exp =
+        Printf.printf "CHAIN\t%s\t%s\t%s\tspec=%s\tmech=%s\texpect=%s\n" fam name (script_s c)
+          (verdict_s (verdict_of spec c)) (verdict_s (verdict_of mech c)) (verdict_s exp) in
+      let links_s f ls = String.concat "-" (List.map f ls) in
+      List.iter (fun ls -> List.iter (fun cst -> List.iter (fun (st, rd) -> List.iter (fun f ->
+          line "ref" (Printf.sprintf "%s%s:%s:%s" (bs cst) (if st then (if rd then "structread" else "struct") else "scalar")
+                        (links_s (fun (pa, rc) -> (if pa then "P" else "L") ^ bs rc) ls) (dform_s f))
+            (ref_chain cst st rd ls f) (chain_expect cst (List.map snd ls)))
+        [FAssign; FCompound]) [(false, false); (true, false); (true, true)]) [true; false]) (lists_upto ref_alpha (depth 2));
+      List.iter (fun ls -> List.iter (fun cst -> List.iter (fun f ->
+          line "alias" (Printf.sprintf "%sarray:%s:%s" (bs cst) (links_s (fun rc -> "P" ^ bs rc) ls)
+                          (match f with Some f -> dform_s f | None -> "w"))
+            (alias_chain cst ls f) (chain_expect cst ls))
+        alias_finals) [true; false]) (lists_upto [false; true] (depth 3));
+      let root_s = function RScalar -> "scalar" | RElem -> "elem" | RStructObj -> "struct" | RMemberSlot -> "member" in
+      let md_s = function ADecl -> "D" | AAssign -> "A" | AArg -> "P" in
+      List.iter (fun ls -> List.iter (fun cst -> List.iter (fun r -> List.iter (fun f ->
+          line "ptr" (Printf.sprintf "%s%s:%s:%s" (bs cst) (root_s r) (links_s (fun (md, pc) -> md_s md ^ bs pc) ls) (pform_s f))
+            (ptr_chain cst r ls f) (chain_expect cst (List.map snd ls)))
+        (proot_forms r)) all_proots) [true; false]) (lists_upto ptr_alpha (depth 4))
   | "sites" ->
       List.iter (fun st ->
         let w = witness st in
